@@ -125,6 +125,9 @@ def run(tier):
     uniq = sorted(set(texts))
     outs = dict(zip(uniq, chem.convert_all(uniq)))
     n_pairs = 0
+    todo = sorted(set((outs[ws[0]]["smiles"], outs[w]["smiles"]) for t, ws in groups for w in ws[1:]
+                      if outs[ws[0]]["smiles"] and outs[w]["smiles"]))
+    verdict = dict(zip(todo, chem.same_many(todo)))
     for t, ws in groups:
         base = outs[ws[0]]["smiles"]
         maxk = max(len(n.kids) for n in all_nodes(t))
@@ -138,7 +141,7 @@ def run(tier):
                 report.fail({"site": "order", "kind": "empty-vs-molecule", "max_kids": maxk},
                             {"written": ws[0], "permuted": w, "results": [base, o]})
                 continue
-            if not orc.same(base, o):
+            if not verdict[(base, o)]:
                 report.fail({"site": "order", "kind": "different-molecule", "max_kids": maxk},
                             {"written": ws[0], "permuted": w, "results": [base, o],
                              "problem": "two writings of the same tree that differ only in the order of branches give different molecules",
